@@ -124,10 +124,10 @@ func c05(r *report.Run) {
 	}
 	tot := &c05Totals{}
 	modes := []lib.Mode{{Env: "struct", Opt: true}, {Env: "struct", Opt: false}, {Env: "map", Opt: true}, {Env: "noenv", Opt: true}}
-	slices := []*slice{sliceControl(), sliceScalar(), sliceAccess(), sliceLoops(), sliceAlloc(), sliceOptim()}
+	slices := []*slice{sliceControl(), sliceScalar(), sliceAccess(), sliceLoops(), sliceAlloc(), sliceOptim(), sliceAliases(), sliceElvis()}
 	budget := map[string]map[string]int{
-		"quick":    {"control": 5, "scalar": 4, "access": 5, "loops": 6, "alloc": 6, "optim": 4},
-		"thorough": {"control": 6, "scalar": 5, "access": 6, "loops": 7, "alloc": 7, "optim": 5},
+		"quick":    {"control": 5, "scalar": 4, "access": 5, "loops": 6, "alloc": 6, "optim": 4, "aliases": 5, "elvis": 6},
+		"thorough": {"control": 6, "scalar": 5, "access": 6, "loops": 7, "alloc": 7, "optim": 5, "aliases": 6, "elvis": 7},
 	}
 	for _, sl := range slices {
 		sl.maxN = map[string]int{r.Tier: budget[r.Tier][sl.name]}
@@ -252,7 +252,7 @@ func c05Boundary(r *report.Run, tot *c05Totals) int64 {
 		env       benv
 		want      string // expected normal form of the result
 	}
-	ks := []int{21830, 21838, 21840, 21841, 21842, 21843, 21844, 21845, 21846, 21848, 23000}
+	ks := []int{21830, 21832, 21833, 21834, 21835, 21836, 21837, 21838, 21839, 21840, 21841, 21842, 21843, 21844, 21845, 21846, 21848, 23000}
 	if r.Tier == "thorough" {
 		ks = nil
 		for k := 21828; k <= 21850; k++ {
@@ -273,7 +273,7 @@ func c05Boundary(r *report.Run, tot *c05Totals) int64 {
 				{"loop-any", "any(A, {len(" + big + ") == #})", benv{I: 1, A: []int{1, k + pad}}, "true"},
 			}
 			for _, t := range ts {
-				if r.Tier == "quick" && pad > 0 && t.name != "cond-else-jump" && t.name != "loop" {
+				if r.Tier == "quick" && pad > 0 && t.name != "cond-else-jump" && t.name != "loop" && t.name != "loop-any" {
 					continue
 				}
 				for _, opt := range []bool{true, false} {
